@@ -1,5 +1,5 @@
 import ChythonModel.Py.Wire
-import ChythonModel.Model.C11Sdf
+import ChythonModel.Model.C11Rdf
 /-!
 Line-protocol driver for C11. Requests are `<op> <int> <int> …`; texts travel as code points.
 -/
@@ -49,12 +49,42 @@ def showPMol (m : PMol) : String :=
 def showMeta (md : List (Str × Str)) : String :=
   s!"M {md.length} " ++ " ".intercalate (md.map fun kv => showStr kv.1 ++ "=" ++ showStr kv.2)
 
-def showRec (r : Rec) : String :=
-  showPMol r.mol ++ " MAP " ++ showInts r.mapping ++ " " ++ showMeta r.md
-
 def showR (f : α → String) : R α → String
   | .ok a => "ok " ++ f a
   | .error e => showErr e
+
+def showP3Mol (m : P3Mol) : String :=
+  showPMol { title := m.title, atoms := m.atoms, bonds := m.bonds, stereo := m.stereo } ++ " X " ++ showMeta m.md
+
+def showAnyMol : AnyMol → String
+  | .v2 m => "v2 " ++ showPMol m
+  | .v3 m => "v3 " ++ showP3Mol m
+
+def showRec (r : Rec') : String :=
+  showAnyMol r.mol ++ " MAP " ++ showInts r.mapping ++ " " ++ showMeta r.md
+
+def showRxn (f : μ → String) (r : PRxn μ) : String :=
+  let grp (t : String) (ms : List μ) : String := s!" {t} {ms.length} " ++ " ; ".intercalate (ms.map f)
+  s!"T {showOptStr r.title}" ++ grp "R" r.reactants ++ grp "P" r.products ++ grp "G" r.reagents
+
+def showRRec : RRec → String
+  | .mol m mp md => "mol " ++ showAnyMol m ++ " MAP " ++ showInts mp ++ " " ++ showMeta md
+  | .rxn2 r md => "rxn2 " ++ showRxn showPMol r ++ " " ++ showMeta md
+  | .rxn3 r md => "rxn3 " ++ showRxn showP3Mol r ++ " " ++ showMeta md
+
+def pMols : P (List WMol) := do let n ← nextN; many n pMol
+def pRxn : P WRxn := do
+  let name ← str; let r ← pMols; let p ← pMols; let g ← pMols
+  pure { name, reactants := r, products := p, reagents := g }
+
+/-- step through an RDF file block by block (`tell` counts successfully read blocks) -/
+def rdfSteps (bufSize : Nat) : Nat → Nat → List Str → List String
+  | 0, _, _ => ["fuel"]
+  | fuel + 1, tell, file =>
+    match rdfReadBlock bufSize tell file with
+    | .error e => [showErr e]
+    | .ok (b, rest) =>
+      (s!"blk {b.buf.length} {b.mStart} " ++ showR showRRec (rdfReadStructure b)) :: rdfSteps bufSize fuel (tell + 1) rest
 
 /-- step through a file block by block exactly as repeated `read_structure(current=False)` calls would -/
 def stepBlocks (bufSize : Nat) : Nat → List Str → List String
@@ -64,7 +94,7 @@ def stepBlocks (bufSize : Nat) : Nat → List Str → List String
     | .error e => [showErr e]
     | .ok (b, rest) =>
       let hd := s!"blk {b.buf.length} {match b.mEnd with | some k => toString k | none => "-"} " ++
-                showR showRec (readStructure2000 b)
+                showR showRec (readStructure b)
       hd :: stepBlocks bufSize fuel rest
 
 def handle (line : String) : String :=
@@ -96,13 +126,40 @@ def handle (line : String) : String :=
           let bs ← nextN; let s ← restStr
           let file := splitLinesKeep s
           let steps := stepBlocks bs (file.length + 2) file
-          let (recs, crash) := iterate readStructure2000 bs (file.length + 2) file
+          let (recs, crash) := iterate readStructure bs (file.length + 2) file
           let it := s!"iter {recs.length} {match crash with | some e => e.name | none => "-"}"
           let idx := "idx " ++ showNats (indexShifts file)
           pure (" | ".intercalate (steps ++ [it, idx]))
       | "getitem" => run do
           let bs ← nextN; let i ← nextN; let s ← restStr
-          pure (showR showRec (getItem readStructure2000 bs (splitLinesKeep s) i))
+          pure (showR showRec (getItem readStructure bs (splitLinesKeep s) i))
+      | "wmol3000" => run do
+          let mp ← nextI; let g ← pMol
+          pure (showR (fun ls => showStr ls.flatten) (writeMol3000 (mp != 0) g))
+      | "esdfwrite" => run do
+          let mp ← nextI; let g ← pMol; let md ← pMeta
+          pure (showR showStr (esdfWrite (mp != 0) g md))
+      | "pmol3000" => run do
+          let s ← restStr
+          pure (showR showP3Mol (parseMol3000 (splitLinesKeep s)))
+      | "v3split" => run do let s ← restStr; pure (" ".intercalate ((v3split s).map showStr))
+      | "rdfwmol" => run do
+          let v3 ← nextI; let mp ← nextI; let g ← pMol; let md ← pMeta
+          pure (showR showStr (if v3 != 0 then erdfWriteMol (mp != 0) g md else rdfWriteMol (mp != 0) g md))
+      | "rdfwrxn" => run do
+          let v3 ← nextI; let mp ← nextI; let r ← pRxn; let md ← pMeta
+          pure (showR showStr (if v3 != 0 then erdfWriteRxn (mp != 0) r md else rdfWriteRxn (mp != 0) r md))
+      | "rdfmeta" => run do let s ← restStr; pure (showMeta (rdfReadMeta (splitLinesKeep s)))
+      | "rdfread" => run do
+          let bs ← nextN; let s ← restStr
+          let file := splitLinesKeep s
+          let steps := rdfSteps bs (file.length + 2) 0 file
+          let (recs, crash) := rdfIterate rdfReadStructure bs (file.length + 2) 0 file
+          let it := s!"iter {recs.length} {match crash with | some e => e.name | none => "-"}"
+          let starts := rdfIndexStarts file
+          let idx := "idx " ++ showNats (starts.map (lineOffset file))
+          let gets := (List.range starts.length).map fun i => s!"get {i} " ++ showR showRRec (rdfGetItem rdfReadStructure bs file i)
+          pure (" | ".intercalate (steps ++ [it, idx] ++ gets))
       | _ => "err:op"
 
 def main : IO Unit := runDriver handle
